@@ -176,7 +176,11 @@ def nada_main():
     t = total([x, y, z])
     w = pick(a < b, t, z)
     r = a * FEE / HUNDRED
-    return [Output(w, "w", p), Output(t, "t", p), Output(r + Integer(10), "r", p)]
+    double = nada_fn(lambda v: v + v, args_ty={"v": SecretInteger}, return_ty=SecretInteger)
+    triple = nada_fn(lambda v: v + v + v, args_ty={"v": SecretInteger}, return_ty=SecretInteger)
+    m = Array.new(a, b).map(double).reduce(nada_fn(lambda acc, v: acc + triple(v), args_ty={"acc": SecretInteger, "v": SecretInteger},
+                                                   return_ty=SecretInteger), Integer(0) + a)
+    return [Output(w, "w", p), Output(t, "t", p), Output(r + Integer(10), "r", p), Output(m, "m", p)]
 """
 
 
@@ -602,6 +606,17 @@ def run(res, tier):
                 res.violation({"property": "C13", "kind": "failure-envelope", "args": args, "stdout": out[:300]},
                               f"arguments {args}: expected one Failure object, got {err or obj['result']}")
         timer_stats = timer_correspondence(res, tier, tmp)
+        # the same program text compiled from its path after programs of other directories that have a helper module of the same
+        # name, in several orders (A, B, A, …): the MIR must be the one a new interpreter gives (the sequences of C08's check)
+        from . import c08 as _c08
+
+        class _Relabel:
+            def __init__(self, inner):
+                self.inner = inner
+
+            def violation(self, obj, text, **kw):
+                self.inner.violation(dict(obj, property="C13", c08_kind=obj.get("kind"), kind="same-named-helpers"), text, **kw)
+        _c08.same_named_helpers(_Relabel(res), tier)
     finally:
         shutil.rmtree(tmp, ignore_errors=True)
     res.coverage.update({
@@ -623,6 +638,9 @@ def run(res, tier):
 def replay(obj):
     tmp = tempfile.mkdtemp(prefix="nvc13")
     try:
+        if obj.get("kind") == "same-named-helpers":
+            from . import c08 as _c08
+            return _c08.replay(dict(obj, kind=obj.get("c08_kind")))
         if obj.get("kind") == "timers-history":
             import subprocess
             import sys
